@@ -239,6 +239,16 @@ def gen_api_case(rng, ctx, pool_of_keys, forced=None):
                     allocs.append([pk_, ipt])
                     meta[ipt] = (pk_, pc, "pool-prefix")
                     ctx.dist("api:pool-pod-and-its-pool-reserve")
+    # a key may hold SEVERAL IPs (a pool's or an app's reserve, a pod with several requested ranges): every one of its listed
+    # entries is released by posting it back, whichever of them the table yields first
+    if allocs and rng.random() < 0.4:
+        for key, _ in rng.sample(allocs, min(len(allocs), rng.choice([1, 2]))):
+            for _ in range(rng.choice([1, 2, 3])):
+                ipt = "10.0.2.%d" % rng.randrange(2, 250)
+                if ipt not in meta and all(ipt != a[1] for a in allocs):
+                    allocs.append([key, ipt])
+                    meta[ipt] = meta[next(a[1] for a in allocs if a[0] == key)]
+        ctx.dist("api:key-holds-several-ips")
     pods = []
     for key, pc, what, fields in picks:
         if what == "pod" and rng.random() < 0.15:
